@@ -27,7 +27,7 @@ ROW_KIND = {"type": "str", "metadata_spec_version": "str", "delegations": "deleg
 SUPPORTED = ["root", "key_mgr"]
 
 
-def run(ctx):
+def run(ctx, deps=True):
     eng, prog = ctx.eng, ctx.prog
     ctx.assume("A1", "A3", "exact value grammar of int(x) == x and strptime beyond the conjunct structure (see C15 and the residual list)")
     sm = eng.walk("common.checkformat_delegating_metadata")
@@ -132,6 +132,12 @@ def run(ctx):
         ctx.ob("R3", "decides|%s|%s" % (q, kind), st_.loc(), "%s %s the '%s' grammar" % (q, "decides exactly" if ok else "does NOT decide exactly", kind), ok, detail if not ok else None)
     ctx.floor("R3.subvalidators", 6)
     ctx.info["field_kinds"] = ROW_KIND
+    # "the verifiers never run into an internal error on anything it accepts": the escape sets of
+    # the validators and verifiers stay inside the documented families (C13's rule set)
+    if deps:
+        from . import c13
+
+        c13.run(ctx.sub("DEP-C13"))
 
 
 def _cause(eng, p, x, m, s, sigs, expected_args):
